@@ -27,7 +27,7 @@ var Statics = []reflect.Type{
 	T[EmbedMarshaler](), T[EmbedTextMarshalerPtr](), T[EmbedNonStruct](), T[EmbedPtrNonStruct](), T[EmbedIface](), T[EmbedTwoPtr](), T[EmbedTagDepths](), T[DupTagDirect](), T[DupTagEmbedded](), T[NonASCIIKeys](), T[AddrMapThenSlice](), T[AddrSliceThenMap](), T[EmbedUnexpNonStructTagged](), T[MutRoot](), T[MutA](), T[EmbedPtrOmit](), T[Tags](), T[CaseFields](), T[Recursive](), T[Deep](),
 }
 
-var mapKeys = []reflect.Type{T[string](), T[NamedString](), T[int](), T[int8](), T[uint64](), T[KeyT](), T[KeyPT](), T[bool](), T[float64](), T[VTInt](), T[VTString](), T[KeyMTOnly](), T[time.Duration](), T[VMInt](), T[PMInt](), reflect.PointerTo(T[KeyPT]()), reflect.PointerTo(T[KeyT]())}
+var mapKeys = []reflect.Type{T[string](), T[NamedString](), T[int](), T[int8](), T[uint64](), T[KeyT](), T[KeyPT](), T[bool](), T[float64](), T[VTInt](), T[VTString](), T[KeyMTOnly](), T[time.Duration](), T[VMInt](), T[PMInt](), reflect.PointerTo(T[KeyPT]()), reflect.PointerTo(T[KeyT]()), T[KeyNaN]()}
 
 var fieldTags = []string{"", `json:"x"`, `json:"-"`, `json:"-,"`, `json:",omitempty"`, `json:",string"`, `json:"y,omitempty,string"`, `json:"bad name"`, `json:"<a>&b"`, `json:"x,omitempty"`}
 
@@ -129,6 +129,10 @@ func Domain(t reflect.Type, depth int) []reflect.Value {
 			}
 			add(EmbedPtrOmit{X: m, InnerOmit: in}, EmbedPtrOmit{Y: "y", InnerOmit: in, Z: &one})
 		}
+		return out
+	case T[KeyNaN]():
+		// exactly one value holding a NaN: two such keys in one map would be written in an order neither encoder defines
+		add(KeyNaN{1.5}, KeyNaN{}, KeyNaN{math.NaN()})
 		return out
 	case T[RecArr]():
 		inner := RecArr{nil}
@@ -594,8 +598,9 @@ func deepEq(a, b reflect.Value, path string, depth int) (bool, string) {
 		it := a.MapRange()
 		for it.Next() {
 			bv := b.MapIndex(it.Key())
-			if !bv.IsValid() && it.Key().Kind() == reflect.Ptr {
-				// pointer keys of two independent targets: match by what they point to
+			if !bv.IsValid() && (it.Key().Kind() == reflect.Ptr || !a.MapIndex(it.Key()).IsValid()) {
+				// pointer keys of two independent targets: match by what they point to; keys that do not
+				// equal themselves (they hold a NaN) are matched the same way, NaN being equal to NaN here
 				jt := b.MapRange()
 				for jt.Next() {
 					if ok, _ := deepEq(it.Key(), jt.Key(), path, depth+1); ok {
